@@ -66,6 +66,10 @@ package jsonrpc2
 // The reader's exit action records the (non-nil) read error.
 //@ func (*Connection).readIncoming$2 [C01]
 //@   requires err != nil
+//@   loop 1: invariant @map-untouched s.outgoingCalls == old(s.outgoingCalls) && closed(c.done) == old(closed(c.done))
+//@   loop 1: invariant @visited-are-completed forall id ID :: {inDom(s.outgoingCalls, id)} id in s.outgoingCalls && id in $visited ==> closed(rawGet(s.outgoingCalls, id).ready)
+//@   loop 1: invariant @unvisited-are-open forall id ID :: {inDom(s.outgoingCalls, id)} id in s.outgoingCalls && !(id in $visited) ==> !closed(rawGet(s.outgoingCalls, id).ready)
+//@   loop 1: invariant @completion-is-final forall ac *AsyncCall :: {closed(ac.ready)} old(closed(ac.ready)) ==> closed(ac.ready) && ac.response == old(ac.response)
 
 // A failed write records the (non-nil) write error.
 //@ func (*Connection).write$2 [C05]
